@@ -44,9 +44,20 @@ def _lu(model, parts=1, **kw):
     return out
 
 
+# models local to the ListUsers harness (zz_verif_e06_models.go): shapes with bespoke ListUsers code that the
+# shared family lacks (nested exclusion with wildcards, intersection over an exclusion, wildcards through usersets)
+MODELS_LU = ["lu_nested_excl", "lu_inter_excl", "lu_userset_wild"]
+
+
 def c06(tier, seed):
     q = tier == "quick"
     jobs = []
+    for m in MODELS_LU:
+        jobs += _lu(m, maxcands=10 if q else 16, invalid=0, filters="types", seed=(seed + 1) % 7, timeout_ms=60000, max_paths=20000)
+        if not q:
+            jobs += _lu(m, maxcands=9, seed=seed % 7, timeout_ms=60000, max_paths=20000, **{_KNOWN: 1})
+    # exclusion whose subtracted branch runs into a userset cycle (reports the finding "exclusion drops every user")
+    jobs += _lu("lu_excl_cycle", maxcands=10, invalid=0, filters="types", timeout_ms=60000, max_paths=6000)
     if q:
         for m in MODELS_QUICK + ["condition"]:
             # A: valid tuples only, filters = the types (objects and typed wildcards as subjects)
@@ -63,12 +74,23 @@ def c06(tier, seed):
             jobs += _lu(m, parts=parts, maxcands=10, seed=seed % 7, timeout_ms=60000, max_paths=60000, **{_KNOWN: 1})
             jobs += _lu(m, maxcands=8, seed=(seed + 3) % 7, timeout_ms=60000, max_paths=60000, **{_KNOWN: 1})
             jobs += _lu(m, maxcands=8, ctx=3, seed=(seed + 2) % 7, timeout_ms=60000, max_paths=60000, **{_KNOWN: 1})
-            jobs += _lu(m, maxcands=8, breadth=1, seed=(seed + 4) % 7, timeout_ms=60000, max_paths=60000, **{_KNOWN: 1})
+            # breadth limit: no model of the family has more than two operands under a union / intersection,
+            # so limit 2 must never stall; limit 1 only where no union / intersection is involved
+            jobs += _lu(m, maxcands=8, breadth=2, seed=(seed + 4) % 7, timeout_ms=60000, max_paths=60000, **{_KNOWN: 1})
+            if m in _NO_POOLED_OPERANDS:
+                jobs += _lu(m, maxcands=8, breadth=1, seed=(seed + 5) % 7, timeout_ms=60000, max_paths=60000, **{_KNOWN: 1})
         for j in jobs:
             j["job_timeout_s"] = 3000
     # strict: without the tolerance parameter (reports the finding "plain objects under a type#relation filter")
     jobs += _lu("ttu", maxcands=6, invalid=0, timeout_ms=60000, max_paths=4000)
+    # breadth limit 1 on an intersection (reports the finding "operands are queued on the bounded pool before their
+    # result channels have readers": deadlock, in production a stall until the deadline and a silently partial answer);
+    # seed pinned: the subset must hold two members of one document
+    jobs += _lu("intersection", maxcands=8, breadth=1, seed=4, timeout_ms=60000, max_paths=4000, **{_KNOWN: 1})
     return jobs
+
+
+_NO_POOLED_OPERANDS = {"direct", "wildcard", "userset", "userset_flat", "exclusion", "condition", "condition_userset", "ttu_excl"}
 
 
 _ASSUME = [
@@ -88,7 +110,7 @@ SPEC = {
     "C06": {
         "jobs": c06,
         "level_text": "bounded symbolic execution of the real ListUsers command (NewListUsersQuery with its request storage wrapper, request validation, possible-edges pruning, expand over direct / computed / tuple-to-userset / union / intersection / exclusion with goroutines, channels, pools and cycle detection) over a symbolic store: every candidate tuple's presence is a solver variable, every (object, relation, user filter type[#relation]) over the universe is requested, and on every path the solver shows: every returned entry has the shape of the filter and is permitted by the three-valued least-fixpoint reference semantics of Check (a typed wildcard = Check with the wildcard as user), no entry is returned twice, every concrete user/userset of the filter the reference permits is returned or (objects) covered by a returned typed wildcard of its type, a permitted wildcard is returned, and an error occurs only if the store holds a tuple whose condition cannot be evaluated.",
-        "level_note": "bounds: 8 (quick) / 17 models, 2 objects per type, <= 8-10 candidates per run (every tuple ListUsers reads is a fork, so fewer than for Check; seeded subsets, heavy models split over several jobs), subjects = all objects of the filter type + its typed wildcard, or all usersets type:id#relation; up to 3 candidates as contextual tuples; breadth limit 1 (thorough). Deadline switched off (a deadline returns a partial answer by design); max results 1000 never reached. The response of this API version has no excluded_users: a returned wildcard does not promise every object of the type. All jobs but the strict one drop entries matching the recorded finding (plain objects under a type#relation filter) before checking, so that the remaining obligations are explored on every path. Trusted: engine semantics and library models listed in evidence, the reference semantics (harness/internal/vtsem), z3.",
+        "level_note": "bounds: 8 (quick) / 17 models of the shared family plus 4 models local to the harness (nested exclusion with wildcards, intersection over an exclusion, wildcards through usersets under an exclusion, exclusion over a recursive userset - the last one demonstrates the recorded finding 'a userset cycle under the subtracted branch makes the exclusion return nobody'), 2 objects per type, <= 8-10 candidates per run (every tuple ListUsers reads is a fork, so fewer than for Check; seeded subsets, heavy models split over several jobs), subjects = all objects of the filter type + its typed wildcard, or all usersets type:id#relation; up to 3 candidates as contextual tuples; breadth limit 2 on every model and 1 on the models without union / intersection (thorough), plus one job with breadth limit 1 on an intersection that demonstrates the recorded stall (operands queued on the bounded pool before their result channels have readers). A deadlock, a leaked goroutine or a panic on any path is a violation by itself. Deadline switched off (a deadline returns a partial answer by design); max results 1000 never reached. The response of this API version has no excluded_users: a returned wildcard does not promise every object of the type. All jobs but the strict one drop entries matching the recorded finding (plain objects under a type#relation filter) before checking, so that the remaining obligations are explored on every path. Trusted: engine semantics and library models listed in evidence, the reference semantics (harness/internal/vtsem), z3.",
         "assumptions": _ASSUME + [
             "CEL evaluation replaced by one symbolic outcome (met / not met / missing parameter) per condition name; replay runs the real CEL evaluator with a request context producing that outcome",
             "ListUsers deadline = 0 (disabled); dispatch and datastore throttling disabled (defaults)",
